@@ -61,7 +61,8 @@ Calls ==
    C0("exists_quantifier"), C0("into_claim_phase"),
    Call("metavar", 0, Bot, Bot, <<>>, <<<<>>, <<>>, <<>>, <<>>, <<>>>>),
    Call("metavar", 1, Bot, Bot, <<>>, <<<<>>, <<>>, <<>>, <<>>, <<>>>>),
-   Call("metavar", 1, Bot, Bot, <<>>, <<<<0>>, <<>>, <<0>>, <<>>, <<>>>>)}
+   Call("metavar", 1, Bot, Bot, <<>>, <<<<0>>, <<>>, <<0>>, <<>>, <<>>>>),
+   Call("metavar", 2, Bot, Bot, <<>>, <<<<>>, <<>>, <<>>, <<>>, <<1>>>>)}
   \cup (IF IsPat(0) /\ IsPat(1)
         THEN {CT("implies", 0, E(1).p, E(0).p), CT("app", 0, E(1).p, E(0).p)}
              \cup (IF E(0).p.t \in {"mv", "es", "ss"} THEN {CT("esubst", 0, E(0).p, E(1).p), CT("ssubst", 0, E(0).p, E(1).p), CT("esubst", 1, E(0).p, E(1).p)} ELSE {})
